@@ -36,7 +36,7 @@ def _gen(ci, dom, plan):
     """plan: dict(mode, k, nbuf, exit_perm)."""
     def g(draw, w):
         roots = w.roots()
-        if len(roots) < plan["k"]:
+        if len(roots) < plan["k"] and not (plan.get("dropped") and plan["phase"] != "post"):
             return {"t": "new", "r": 0, "id": w.next_id()}
         ph = plan["phase"]
         if ph == "pre":
@@ -95,6 +95,11 @@ def _gen(ci, dom, plan):
                     if s is not None:
                         return s
                 return _op(draw, w, dom, plan)
+            if plan.get("drop_all") and plan["mode"] == "cls" and roots:
+                # the user lets go of EVERY object of the file (and a GC pass runs) before the
+                # class-wide context ends: what they wrote must still reach the file
+                plan["dropped"] = True
+                return {"t": "drop", "h": roots[0]}
             plan["phase"] = "exit"
             ph = "exit"
         if ph == "exit":
@@ -114,6 +119,8 @@ def _gen(ci, dom, plan):
                 return {"t": "exit_at", "i": draw(st.integers(lo, len(w.stack) - 1))}
             plan["phase"] = "post"
         if plan["post"] > 0:
+            if not w.attached_handles():
+                return {"t": "new", "r": 0, "id": w.next_id()}
             plan["post"] -= 1
             return _op(draw, w, dom)
         return None
@@ -212,6 +219,8 @@ def run_shard(spec, seed, tier, active):
             else:
                 plan["script"] = [("r", r_), ("w", w_)]
                 plan["exit_first"] = r_
+        if plan["mode"] == "cls" and draw(st.integers(0, 3)) == 0:
+            plan["drop_all"] = True
         if plan["mode"] in ("cls", "both") and draw(st.integers(0, 2)) == 0:
             plan["cap"] = draw(st.sampled_from([0, 1, 2, 12, 30])) if ci.buffered == "serialized" \
                 else draw(st.sampled_from([0, 1]))
@@ -224,7 +233,8 @@ def run_shard(spec, seed, tier, active):
         acc.excluded += w.excluded
         nt, roles, order = _analyse(w, plan["mode"])
         cnt = {f"mode={plan['mode']}": 1, f"k={k}": 1, "nontrivial_shape": int(nt),
-               "small_capacity": int(plan.get("cap") is not None)}
+               "small_capacity": int(plan.get("cap") is not None),
+               "all_objects_dropped_before_exit": int(bool(plan.get("dropped")))}
         sample = {"class": ci.name, "mode": plan["mode"], "initial": repr(init), "steps": w.log[:18]} if nt else None
         acc.case([h64(ci.name, plan["mode"], k, roles, len(order))] + [h64(ci.name, plan["mode"], w.log)] if nt else (), sample, cnt)
 
